@@ -47,6 +47,20 @@ func genKeys() (string, error) {
 			tbl = append(tbl, fmt.Sprintf("(%q, %s)", n, g.BytesLit(consts[n])))
 		}
 		fmt.Fprintf(&b, "def prefixTable : List (String × Bytes) := [%s]\n", strings.Join(tbl, ", "))
+		if s.ns == "fsm" {
+			// pool ids are composed as chainId + addend: the addends and the chain-id bound, evaluated from the var block
+			consts, cerr := uintConsts(f, map[string]uint64{"math.MaxUint16": 65535, "math.MaxUint32": 4294967295})
+			if cerr != nil {
+				return "", cerr
+			}
+			for _, n := range []string{"MaxChainId", "HoldingPoolAddend", "LiquidityPoolAddend", "EscrowPoolAddend"} {
+				v, ok := consts[n]
+				if !ok {
+					return "", fmt.Errorf("fsm/key.go: constant %s not found or not evaluable", n)
+				}
+				fmt.Fprintf(&b, "def %s : Nat := %d\n", n, v)
+			}
+		}
 		for _, n := range g.SortedKeys(consts) {
 			fmt.Fprintf(&b, "def %s : Bytes := %s\n", n, g.BytesLit(consts[n]))
 		}
@@ -235,4 +249,75 @@ func calledFuncs(fd *ast.FuncDecl, all []*ast.FuncDecl, recv string) []string {
 		return true
 	})
 	return out
+}
+
+// uintConsts evaluates package-level `name = uint64(<constant expression>)` declarations (var or const).
+func uintConsts(f *g.File, env map[string]uint64) (map[string]uint64, error) {
+	out := map[string]uint64{}
+	var eval func(e ast.Expr) (uint64, bool)
+	eval = func(e ast.Expr) (uint64, bool) {
+		switch v := e.(type) {
+		case *ast.BasicLit:
+			var n uint64
+			if _, err := fmt.Sscanf(v.Value, "%d", &n); err != nil {
+				return 0, false
+			}
+			return n, true
+		case *ast.ParenExpr:
+			return eval(v.X)
+		case *ast.Ident, *ast.SelectorExpr:
+			if n, ok := env[g.ExprText(e)]; ok {
+				return n, true
+			}
+			if n, ok := out[g.ExprText(e)]; ok {
+				return n, true
+			}
+			return 0, false
+		case *ast.CallExpr:
+			if g.ExprText(v.Fun) == "uint64" && len(v.Args) == 1 {
+				return eval(v.Args[0])
+			}
+			return 0, false
+		case *ast.BinaryExpr:
+			x, ok1 := eval(v.X)
+			y, ok2 := eval(v.Y)
+			if !ok1 || !ok2 {
+				return 0, false
+			}
+			switch v.Op.String() {
+			case "+":
+				return x + y, true
+			case "-":
+				return x - y, true
+			case "*":
+				return x * y, true
+			case "/":
+				if y == 0 {
+					return 0, false
+				}
+				return x / y, true
+			}
+		}
+		return 0, false
+	}
+	for _, d := range f.AST.Decls {
+		gd, ok := d.(*ast.GenDecl)
+		if !ok {
+			continue
+		}
+		for _, sp := range gd.Specs {
+			vs, ok := sp.(*ast.ValueSpec)
+			if !ok {
+				continue
+			}
+			for i, n := range vs.Names {
+				if i < len(vs.Values) {
+					if v, ok := eval(vs.Values[i]); ok {
+						out[n.Name] = v
+					}
+				}
+			}
+		}
+	}
+	return out, nil
 }
